@@ -105,6 +105,40 @@ pub fn column(depth: usize) -> Value {
             }
         }
     }
+    // wide columns: more than 255 distinct values (dictionary codes, run counts and row counts beyond one byte), long runs, a
+    // long stretch of NULLs; read from a few start rows in whole-column and 7-row batches
+    let wide: Vec<Vec<Option<i32>>> = vec![
+        (0..300).map(Some).collect(),
+        (0..300).map(|i| if i % 9 == 4 { None } else { Some(i * 3) }).collect(),
+        (0..520).map(|i| Some(i / 260)).collect(),
+        (0..300).map(|i| if (20..280).contains(&i) { None } else { Some(i) }).collect(),
+    ];
+    for items in &wide {
+        let n = items.len();
+        let has_null = items.iter().any(|v| v.is_none());
+        for strings in [false, true] {
+            for encode in 0u8..3 {
+                for nullable in [false, true] {
+                    if has_null && !nullable { continue; }
+                    for block in [48usize, 4096] {
+                        for start in [0usize, 1, 255, 256, 257, n - 1, n] {
+                            for k in [None, Some(7)] {
+                                tried += 1;
+                                // a batch never spans blocks and a block may hold a single row: n + 2 reads drain the column in every layout
+                                let steps: Vec<ColumnRead> = (0..n + 2).map(|_| ColumnRead::Batch(k)).collect();
+                                let input = || json!({"items": format!("{} values: {:?} ...", n, &items[..12]), "type": if strings { "varchar ('s'+value)" } else { "int" }, "encoding": (["plain", "run-length", "dictionary"][encode as usize]),
+                                    "nullable": nullable, "target_block_size": block, "start_row": start, "steps": format!("{:?}", &steps[..2])});
+                                match h::column_read(items, strings, encode, nullable, block, start as u32, &steps) {
+                                    Ok(out) => if let Err(e) = check(items, start, &steps, &out) { return json!({"found": true, "tried": tried, "input": input(), "observed": format!("{e}; first batches returned (row id, values): {:?}", &out[..out.len().min(3)])}); },
+                                    Err(e) => return json!({"found": true, "tried": tried, "input": input(), "observed": e}),
+                                }
+                            }
+                        }
+                    }
+                }
+            }
+        }
+    }
     // long varchar values (a value is never split over blocks: one larger than the target block size, or than 64 KiB, still has
     // to read back whole); value v >= 1_000_000 stands for 'L' + v - 1_000_000 times 'x'
     let long_strings: Vec<Vec<Option<i32>>> = vec![
